@@ -191,7 +191,7 @@ def fail_reason(verdict):
     return "?"
 
 
-def sim_shrink(d, header, evs, budget=400):
+def sim_shrink(d, header, evs, budget=2500):
     """ddmin over the EV lines: keep any sub-schedule on which validation still fails."""
     def failing(cand):
         v, _ = sim_eval(d, [header] + cand)
